@@ -308,10 +308,43 @@ pub fn run(run: &Run) {
         let ch = prop_oneof![45 => gens::pick(&pools().cased), 25 => gens::pick(&pools().simple), 20 => gens::pick(&pools().general), 10 => gens::gchar()];
         (gens::padded(prop_oneof![9 => vec(ch.clone(), 0..=12), 1 => vec(ch, 0..=120)].prop_map(gens::s_of).boxed()), 0..2usize)
     };
+    // the mapping is untailored: the same case-mapping calls in child processes started under ~50 environments (Turkish, Azeri, Lithuanian,
+    // Greek, C/POSIX locales in LC_ALL / LC_CTYPE / LANG / LANGUAGE, cleared environment) against the reference mapping
+    {
+        let envs = super::envchild::environments();
+        let bat = super::envchild::battery();
+        let (envs, bat) = (&envs, &bat);
+        run.par("environment_children", true, |tid, n, l| {
+            for (i, (clear, vars)) in envs.iter().enumerate() {
+                if i % n != tid {
+                    continue;
+                }
+                l.cases += 1;
+                if let Err(v) = super::envchild::check_env(*clear, vars, &|k| env_expect(k, bat), l) {
+                    run.violate(v);
+                    return;
+                }
+            }
+        });
+    }
     run.prop("random", run.pick(2_000_000, 60_000_000), mk, |(s, pi), l| check(profs[*pi], s, l));
 }
 
+/// expected line of battery call i: only the case-mapping calls, against the reference mapping
+fn env_expect(i: usize, bat: &[(Prof, u8, String, String)]) -> Option<String> {
+    let (_, k, a, _) = &bat[i];
+    if *k == 3 {
+        Some(fmt_res(&Ok(ref_lower(a))))
+    } else {
+        None
+    }
+}
+
 pub fn replay(_run: &Run, case: &Value) -> Check {
+    if case.get("op").and_then(|o| o.as_str()) == Some("environment") {
+        let bat = super::envchild::battery();
+        return super::envchild::replay_env(case, &|k| env_expect(k, &bat));
+    }
     let p = Prof::from_name(case.get("profile").and_then(|p| p.as_str()).unwrap_or("")).expect("profile");
     if case.get("op").and_then(|o| o.as_str()) == Some("huge_input_sequence") {
         let mut l = Local::default();
